@@ -23,6 +23,7 @@ pub static SCENARIO: Scenario = Scenario {
         "keys handed to the entry points are valid (the property is about token text)",
         "a panic is observed with catch_unwind; aborts (stack overflow, OOM) would kill the harness and surface as exit 2",
     ],
+    exhaustive: &["8 headers x decoded lengths 0..=400 x {zeros, ones, random} x {no footer, expected footer, trailing dot} x 3 layers", "all strings of 0..6 segments over 4 segment kinds, and header + 0..4 segments, x 8 protocols x 3 layers", "Key::<N>::try_from for N in {24,32,48,49,64} x every hex length 0..=200", "per sampled token: every proper prefix"],
 };
 
 fn verifiers_for(rb: &mut RunBuilder, r: &mut crate::prng::Rng, proto: Proto, footer: Option<String>) -> Vec<u32> {
